@@ -59,6 +59,39 @@ def sql_of(stmt, ids=None):
     return ("INSERT INTO data VALUES (%d)" if what == "add" else "DELETE FROM data WHERE x = %d") % (e // 2)
 
 
+# batch_alter_table blocks (SQLite "move and copy").  Objects: column c_<j> = even number 2*(1000+j); the temporary
+# table _alembic_tmp_t_<N> = 2*(5000+N).  A block is, for the model, just more statements in the same transaction:
+#   recreate:   CREATE TABLE _alembic_tmp_t_N | INSERT INTO tmp SELECT (DML, no visible effect) | DROP TABLE t_N | ALTER .. RENAME
+#   abstracted: ddl add TMP                   | dml no-op                                       | ddl del TMP    | ddl add/del COL
+# (the last two real statements are only ever durable together: both follow the DML inside one transaction)
+#   recreate="auto" + add_column: a single ALTER TABLE ADD COLUMN = ddl add COL
+NOOP_OBJ = 2 * 9999 + 1
+
+
+def col_obj(j):
+    return 2 * (1000 + j)
+
+
+def tmp_obj(n):
+    return 2 * (5000 + n)
+
+
+def batch_stmts(b):
+    col = col_obj(b["col"])
+    if b["op"] == "add" and b["recreate"] == "auto":
+        return [["ddl", "add", col]]
+    tmp = tmp_obj(b["table"])
+    return [["ddl", "add", tmp], ["dml", "del", NOOP_OBJ], ["ddl", "del", tmp], ["ddl", "add" if b["op"] == "add" else "del", col]]
+
+
+def batch_seg(table, col, op_, recreate):
+    b = {"table": table, "col": col, "op": op_, "recreate": recreate}
+    return {"auto": False, "batch": b, "stmts": batch_stmts(b)}
+
+
+_BATCH_SQL = ("CREATE TABLE _ALEMBIC_TMP_", "INSERT INTO _ALEMBIC_TMP_", "DROP TABLE ", "ALTER TABLE ")
+
+
 def n_body_atoms(segs):
     return sum(len(s["stmts"]) + (2 if s["auto"] else 0) for s in segs)
 
@@ -107,10 +140,17 @@ def observe(path, rev_index):
             vt = "alembic_version" in tabs
             rows = [r[0] for r in c.exec_driver_sql("SELECT version_num FROM alembic_version")] if vt else []
             data = [r[0] for r in c.exec_driver_sql("SELECT x FROM data")]
+            cols = []
+            for t in tabs:
+                if t.startswith("t_"):
+                    for row in c.exec_driver_sql('PRAGMA table_info("%s")' % t):
+                        if row[1].startswith("c_"):
+                            cols.append(col_obj(int(row[1][2:])))
     finally:
         eng.dispose()
-    objs = sorted([2 * int(t[2:]) for t in tabs if t.startswith("t_")] + [2 * d + 1 for d in data])
-    unknown = [t for t in tabs if not t.startswith("t_") and t not in ("data", "alembic_version")]
+    objs = sorted([2 * int(t[2:]) for t in tabs if t.startswith("t_")] + [2 * d + 1 for d in data]
+                  + [tmp_obj(int(t[len("_alembic_tmp_t_"):])) for t in tabs if t.startswith("_alembic_tmp_t_")] + cols)
+    unknown = [t for t in tabs if not t.startswith("t_") and not t.startswith("_alembic_tmp_t_") and t not in ("data", "alembic_version")]
     return {"objs": objs, "rows": sorted(rev_index[r] for r in rows), "vt": vt, "unknown": unknown,
             "dup_rows": len(rows) != len(set(rows)), "dup_data": len(data) != len(set(data))}
 
@@ -154,6 +194,7 @@ class Oracle:
         self.unparsed = []
         self.ctx_getter = None
         self.in_body = False  # statements issued by the body itself are body atoms, not version statements
+        self.in_batch = False  # inside op.batch_alter_table(): its statements are counted in the cursor hook
         self.ids = [rid for rid, _ in sorted(rev_index.items(), key=lambda kv: kv[1])]
         self.tddl_seen = None
 
@@ -171,7 +212,21 @@ class Oracle:
         self.in_body = True
         try:
             for seg in self.bodies[rid][direction]:
-                if seg["auto"]:
+                if seg.get("batch"):
+                    import sqlalchemy as _sa
+                    from alembic.operations import Operations
+
+                    b = seg["batch"]
+                    self.in_batch = True
+                    try:
+                        with Operations(ctx).batch_alter_table("t_%d" % b["table"], recreate=b["recreate"]) as bop:
+                            if b["op"] == "add":
+                                bop.add_column(_sa.Column("c_%d" % b["col"], _sa.Integer))
+                            else:
+                                bop.drop_column("c_%d" % b["col"])
+                    finally:
+                        self.in_batch = False
+                elif seg["auto"]:
                     self._tick()  # before entering the block
                     with ctx.autocommit_block():
                         self.pos += 1
@@ -194,6 +249,11 @@ class Oracle:
         up = statement.lstrip().upper()
         if up.startswith("CREATE TABLE ALEMBIC_VERSION"):
             self.create_vt = True
+            return
+        if self.in_batch:
+            if up.startswith(_BATCH_SQL):
+                self._tick()  # failure positions before / between the statements of the batch block
+                self.pos += 1
             return
         if not is_version_dml(statement) or self.step < 0 or self.in_body:
             return
